@@ -345,6 +345,51 @@ type rrCase struct {
 	N          int `json:"n"`
 	Calls      int `json:"calls"`
 	Goroutines int `json:"goroutines"` // 1 = sequential
+	// Rounds > 0: the goroutines leave a spin barrier together and call Balance once each, Rounds times.
+	Rounds int `json:"rounds,omitempty"`
+}
+
+// runRoundRobinRounds: every round consists of exactly Goroutines calls, which in any sequential order receive the counter
+// values [r*G, (r+1)*G); the multiset of answers of a round is therefore fixed if Balance is atomic.
+func runRoundRobinRounds(tb ev.TB, c rrCase) {
+	rr := &kafka.RoundRobin{ChunkSize: c.ChunkSize}
+	ps := parts(c.N)
+	chunk := c.ChunkSize
+	if chunk < 1 {
+		chunk = 1
+	}
+	G := c.Goroutines
+	res := make([][]int, G)
+	in, out := &spinBarrier{n: int32(G)}, &spinBarrier{n: int32(G)}
+	var wg sync.WaitGroup
+	for g := 0; g < G; g++ {
+		wg.Add(1)
+		go func(g int) {
+			defer wg.Done()
+			for r := 0; r < c.Rounds; r++ {
+				in.wait()
+				res[g] = append(res[g], rr.Balance(kafka.Message{}, ps...))
+				out.wait()
+			}
+		}(g)
+	}
+	wg.Wait()
+	for r := 0; r < c.Rounds; r++ {
+		got, want := make([]int, c.N), make([]int, c.N)
+		for g := 0; g < G; g++ {
+			v := res[g][r]
+			if v < 0 || v >= c.N {
+				ev.Fail(tb, "rr", "rr/membership", c, "RoundRobin returned %d, not offered (n=%d)", v, c.N)
+				return
+			}
+			got[v]++
+			want[((r*G+g)/chunk)%c.N]++
+		}
+		if fmt.Sprint(got) != fmt.Sprint(want) {
+			ev.Fail(tb, "rr", "rr/concurrent-round", c, "RoundRobin{ChunkSize:%d} n=%d: the %d simultaneous calls of round %d (calls %d..%d overall) were spread %v over the partitions, every sequential order gives %v", c.ChunkSize, c.N, G, r, r*G, (r+1)*G-1, got, want)
+			return
+		}
+	}
 }
 
 func runRoundRobin(tb ev.TB, c rrCase) {
@@ -353,6 +398,10 @@ func runRoundRobin(tb ev.TB, c rrCase) {
 	chunk := c.ChunkSize
 	if chunk < 1 {
 		chunk = 1
+	}
+	if c.Rounds > 0 && c.Goroutines > 1 {
+		runRoundRobinRounds(tb, c)
+		return
 	}
 	if c.Goroutines <= 1 {
 		for k := 0; k < c.Calls; k++ {
@@ -422,10 +471,16 @@ func TestRoundRobin(t *testing.T) {
 			Calls:      rapid.IntRange(1, 200).Draw(t, "calls"),
 			Goroutines: rapid.SampledFrom([]int{1, 1, 1, 2, 4, 8}).Draw(t, "goroutines"),
 		}
+		if c.Goroutines > 1 && rapid.IntRange(0, 9).Draw(t, "rrRounds") == 0 {
+			c.Rounds = rapid.SampledFrom([]int{100, 300, 1000}).Draw(t, "rounds")
+		}
 		runRoundRobin(t, c)
 		lbl := "rr_sequential"
 		if c.Goroutines > 1 {
 			lbl = "rr_concurrent"
+		}
+		if c.Rounds > 0 {
+			ev.Label("rr_barrier_rounds")
 		}
 		chunk := c.ChunkSize
 		if chunk < 1 {
